@@ -312,6 +312,22 @@ func makeOf(v ssa.Value) *ssa.MakeSlice {
 		case *ssa.Slice:
 			v = x.X
 		case *ssa.UnOp:
+			// load of a local spilled to memory (captured by a closure): its unique store
+			if al, ok := x.X.(*ssa.Alloc); ok {
+				var cand ssa.Value
+				nst := 0
+				for _, r := range *al.Referrers() {
+					if st, ok := r.(*ssa.Store); ok && st.Addr == ssa.Value(al) {
+						cand = st.Val
+						nst++
+					}
+				}
+				if nst == 1 {
+					v = cand
+					continue
+				}
+				return nil
+			}
 			// load of a field/local that was stored a make: follow a unique dominating store
 			if fa, ok := x.X.(*ssa.FieldAddr); ok {
 				var cand ssa.Value
